@@ -8,7 +8,13 @@ open Io
 
 let fuel = nat_of_int 100000
 let str = string_of_mpoly
-let max_dim = ref 13          (* largest Laplace determinant attempted (rows); beyond: SKIP *)
+let max_dim = ref 13          (* largest Laplace determinant attempted (rows) *)
+let laplace_upto = ref 11     (* with at most one parameter: beyond this dimension the determinants are computed by the
+                                 fraction-free Bareiss elimination RefAlg.pdet_fast on the SAME matrices sylv_mat k j
+                                 (proved equal to the determinant: Properties_Base.Base_pdet_fast_det,
+                                 Properties_C04.C04_fast_det_is_det) *)
+let max_dim_fast = ref 26
+let () = match Sys.getenv_opt "C04_LAPLACE_UPTO" with Some v -> laplace_upto := int_of_string v | None -> ()
 
 let rec last_default d = function [] -> d | [x] -> x | _ :: t -> last_default d t
 
@@ -60,20 +66,30 @@ let run_sr (modulus : z option) v ptxt qtxt extra cout =
   let p = mp_coeffs xv pp and q = mp_coeffs xv qq in
   let m = List.length p - 1 and n = List.length q - 1 in
   if m < 1 || n < 1 then "SKIP constant operand" else
-  if m + n > !max_dim then "SKIP determinant too large" else
+  (* parameters = variables other than the main one *)
+  let pars = List.sort_uniq compare (List.filter (fun u -> u <> xv) (mp_vars pp @ mp_vars qq)) in
+  let fast = (List.length pars <= 1) && (m + n > !laplace_upto) in
+  if (not fast && m + n > !max_dim) || (fast && m + n > !max_dim_fast) then "SKIP determinant too large" else
   let (r4, psc, pscu, sub, subu) = parse_cout cout in
   let errs = ref [] in
   let err s = errs := s :: !errs in
   (* ---- reference *)
   let (hi, lo) = if m < n then (q, p) else (p, q) in
-  let chain = subres_chain_mp hi lo in
   let lo_deg = List.length lo - 1 and hi_deg = List.length hi - 1 in
+  let zv = match pars with [u] -> u | _ -> (if int_of_n xv = 0 then n_of_int 1 else n_of_int 0) in
+  let fast_det k j a b : mpoly =
+    let up l = List.map (mp_to_upoly zv) l in
+    mp_of_upoly zv (pnorm (pdet_fast (sylv_mat [] (nat_of_int k) (nat_of_int j) (up a) (up b)))) in
+  let chain =
+    if not fast then subres_chain_mp hi lo
+    else List.init (lo_deg + 1) (fun k ->
+        if k = lo_deg && hi_deg = lo_deg then lo else List.init (k + 1) (fun j -> fast_det k j hi lo)) in
   (* psc_k = coefficient of x^k of the k-th subresultant = sylv_det k k (Properties_C04.C04_psc_is_top_coefficient);
      taken from the chain instead of recomputing the determinant; the top entry for equal degrees is the empty determinant 1 *)
   let psc_ref = List.mapi (fun k l -> if k = lo_deg && hi_deg = lo_deg then str (psc_mp (nat_of_int k) hi lo)
                              else str (List.nth l k)) chain in
   let sub_ref = List.map (fun l -> str (of_coeffs xv l)) chain in
-  let res_ref = if m < n then str (resultant_mp p q) else List.hd psc_ref in
+  let res_ref = if m < n then str (if fast then fast_det 0 0 p q else resultant_mp p q) else List.hd psc_ref in
   (* ---- libpoly vs reference *)
   List.iteri (fun i r -> if r <> res_ref then
                  err (Printf.sprintf "resultant[%s]: libpoly %s, Sylvester determinant %s"
@@ -101,11 +117,13 @@ let run_sr (modulus : z option) v ptxt qtxt extra cout =
   if modulus = None && all_const p && all_const q then begin
     let pz = List.map const_of p and qz = List.map const_of q in
     let (hz, lz) = if m < n then (qz, pz) else (pz, qz) in
+    if not fast then begin
     if string_of_z (resultant_Z pz qz) <> res_ref then err "Z instance of the reference differs from the mpoly instance (resultant)";
     if List.map string_of_z (psc_chain_Z hz lz) <> psc_ref then err "Z instance of the reference differs from the mpoly instance (psc)";
     if List.map string_of_upoly (subres_chain_Z hz lz) <>
        List.map (fun l -> string_of_upoly (List.map const_of l)) chain
-    then err "Z instance of the reference differs from the mpoly instance (subres)";
+    then err "Z instance of the reference differs from the mpoly instance (subres)"
+    end;
     (* the first k psc vanish exactly when the gcd has degree >= k *)
     let dg = List.length (pnorm (pgcd pz qz)) - 1 in
     let rec lead0 = function "0" :: t -> 1 + lead0 t | _ -> 0 in
@@ -125,7 +143,7 @@ let run_sr (modulus : z option) v ptxt qtxt extra cout =
         err (Printf.sprintf "specialisation %s: resultant value %s but both-lc-vanish=%b common-factor=%b (gcd %s)"
                tok (string_of_z r) (lcp0 && lcq0) common (string_of_upoly g));
       (* the determinant commutes with the specialisation (formal degrees kept) *)
-      let rz = resultant_Z ps qs in
+      let rz = if fast then r else resultant_Z ps qs in
       if rz <> r then err (Printf.sprintf "specialisation %s: resultant value %s, Sylvester determinant of the specialised lists %s"
                              tok (string_of_z r) (string_of_z rz))) (if modulus = None then extra else []);
   match !errs with
